@@ -317,6 +317,23 @@ pub fn check(id: &str, tier: Tier) -> i32 {
     bounds.push(json!({"kind": "blocks at odd offsets, no fresh space: requests around the true data size of a released block, next to the owner of the neighbouring block", "threads": 2, "preemption_bound": if thorough { 4 } else { 3 }, "harnesses": count}));
   }
   if id != "C13" {
+    // an owned aligned buffer taken at an odd cursor (alignment padding in front), a neighbour allocated right behind
+    // it by the other thread, the buffer given back while it is not on top, and a request that takes the whole of
+    // the segment it became (fresh space is used up by then)
+    use TOp::*;
+    let pairs: Vec<(Vec<TOp>, Vec<TOp>)> = vec![(vec![ABO(8), DropOwn, B(13)], vec![B(21)]), (vec![ABO(8), DropOwn], vec![B(21), B(13)]), (vec![ABO(8), DropOwn, B(12)], vec![U64, B(13)])];
+    // (53 bytes of fresh space at a cursor of residue 3: the owned buffer takes 5 + 16, the neighbour 21, and what is
+    // left is too little for the last request, which therefore goes to the free list)
+    let mut count = 0;
+    for (fl, shape) in [(Fl::Optimistic, 0u8), (Fl::Pessimistic, 3)] {
+      for (a, b) in &pairs {
+        items.push((Harness { fl, unify: true, min_seg: 8, cap: 256, shape, progs: vec![a.clone(), b.clone()], own_arenas: false, leave: 48, odd: 3, reserved: 0 }, if thorough { 4 } else { 3 }));
+        count += 1;
+      }
+    }
+    bounds.push(json!({"kind": "owned aligned buffer at an odd cursor, released below a neighbour of the other thread", "threads": 2, "preemption_bound": if thorough { 4 } else { 3 }, "harnesses": count}));
+  }
+  if id != "C13" {
     // nearly full arenas with the cursor at an odd residue and aligned requests whose size is not a multiple of
     // the alignment: the request itself fits behind the cursor, the request plus its padding does not
     use TOp::*;
